@@ -261,6 +261,9 @@ m("C05-benign-inputs-collect-two-steps", CALC, "    let inputs: HashMap<String, 
 m("C01-benign-prove-let-proof", PUB, "        let proof = generate_proof(&self.proving_key, &rln_witness, &self.graph_data)?;\n\n        // Note: we export a serialization of ark-groth16::Proof not semaphore::Proof\n        // This proof is compressed, i.e. 128 bytes long\n        proof.serialize_compressed(&mut output_data)?;\n        output_data.write_all(&serialize_proof_values(&proof_values))?;", "        let proof = generate_proof(&self.proving_key, &rln_witness, &self.graph_data)?;\n\n        // Note: we export a serialization of ark-groth16::Proof not semaphore::Proof\n        // This proof is compressed, i.e. 128 bytes long\n        proof.serialize_compressed(&mut output_data)?;\n        let values = serialize_proof_values(&proof_values);\n        output_data.write_all(&values)?;", "C01")
 m("C04-benign-prove-let-values", PUB, "        let proof = generate_proof(&self.proving_key, &rln_witness, &self.graph_data)?;\n\n        // Note: we export a serialization of ark-groth16::Proof not semaphore::Proof\n        // This proof is compressed, i.e. 128 bytes long\n        proof.serialize_compressed(&mut output_data)?;\n        output_data.write_all(&serialize_proof_values(&proof_values))?;", "        let proof = generate_proof(&self.proving_key, &rln_witness, &self.graph_data)?;\n\n        // Note: we export a serialization of ark-groth16::Proof not semaphore::Proof\n        // This proof is compressed, i.e. 128 bytes long\n        proof.serialize_compressed(&mut output_data)?;\n        let values = serialize_proof_values(&proof_values);\n        output_data.write_all(&values)?;", "C04")
 
+m("C16-temporary-guard-on-raw-option", PMA, "        if temporary.unwrap_or(get_tmp()) && path.is_some() && path.as_ref().unwrap().exists() {", "        if temporary.unwrap_or(false) && path.is_some() && path.as_ref().unwrap().exists() {", "C16")
+m("C16-temporary-guard-dropped", PMA, "        if temporary.unwrap_or(get_tmp()) && path.is_some() && path.as_ref().unwrap().exists() {", "        if false && temporary.unwrap_or(get_tmp()) && path.is_some() && path.as_ref().unwrap().exists() {", "C16")
+
 
 def main():
     os.makedirs(OUT, exist_ok=True)
